@@ -1,5 +1,8 @@
 #!/bin/sh
 # rebuild the repository's own test-suite from the current working tree (guard off: no -DBOOST_MULTI_VERIF) and run it
 set -e
+if [ ! -f /repo/_build/CMakeCache.txt ]; then   # same configuration as the pinned baseline build
+  cmake -G Ninja -S /repo -B /repo/_build -DCMAKE_BUILD_TYPE=RelWithDebInfo -DCMAKE_CXX_FLAGS=-Wno-error >/dev/null
+fi
 cmake --build /repo/_build -j16 >/dev/null
 OMPI_ALLOW_RUN_AS_ROOT=1 OMPI_ALLOW_RUN_AS_ROOT_CONFIRM=1 ctest --test-dir /repo/_build -j8 --timeout 900 "$@"
